@@ -51,6 +51,10 @@ pub enum FaultKind {
     LoadEmptyResults,
     /// (loads) results holding one warning, `<load-error-count>1`, and no `<ok/>`
     LoadWarningNoOk,
+    /// the operation's normal (positive) reply with an error-severity rpc-error appended as the
+    /// last child of `<rpc-reply>`: `<data>...</data><rpc-error>`, `<ok/><rpc-error>`,
+    /// `<load-configuration-results><ok/></...><rpc-error>`
+    PositiveThenError,
     /// two rpc-errors, the first of severity error, the second a warning
     ErrorThenWarning,
     /// two rpc-errors, the first a warning, the second of severity error
@@ -111,7 +115,7 @@ pub fn load_shape(code: u16) -> Vec<ShapeItem> {
     v
 }
 
-pub const FAULT_KINDS: [FaultKind; 16] = [
+pub const FAULT_KINDS: [FaultKind; 17] = [
     FaultKind::RpcError,
     FaultKind::Truncated,
     FaultKind::WrongRoot,
@@ -128,6 +132,7 @@ pub const FAULT_KINDS: [FaultKind; 16] = [
     FaultKind::LoadWarningNoOk,
     FaultKind::ErrorThenWarning,
     FaultKind::WarningThenError,
+    FaultKind::PositiveThenError,
 ];
 
 #[derive(Debug, Clone, PartialEq, Eq, Serialize, Deserialize)]
@@ -282,6 +287,16 @@ impl FakeJunos {
                     format!("{}{}", e("warning"), e("error"))
                 };
                 out.push(reply_wrap(&id, &body));
+            }
+            Some(FaultKind::PositiveThenError) => {
+                record.positive_reply = false;
+                let text = String::from_utf8_lossy(&reply).to_string();
+                let err = "<rpc-error>\n<error-type>protocol</error-type>\n<error-tag>operation-failed</error-tag>\n<error-severity>error</error-severity>\n<error-message>injected after the positive part</error-message>\n</rpc-error>\n";
+                match text.rfind("</rpc-reply>") {
+                    Some(i) => out.push(format!("{}{err}{}", &text[..i], &text[i..]).into_bytes()),
+                    // a self-closed / unusual spelling: fall back to a plain error
+                    None => out.push(rpc_error(&id, "injected fault")),
+                }
             }
             Some(FaultKind::Truncated) => {
                 record.positive_reply = false;
